@@ -37,7 +37,8 @@ RULE = ("K = 2..4 users with unequal Nr/Nt/Ns, raw channel matrix supplied by "
         "re-initialisation the path loss is re-applied only half of the time "
         "(it stays in force otherwise). "
         "In a third of the solver cases the object held another solution (other stream counts and power) before. "
-        "In half of the solver cases the power is changed through the P setter (scalar / None / vector) after the SINRs were read, and everything is read again. ")
+        "In half of the solver cases the power is changed through the P setter (scalar / None / vector) after the SINRs were read, and everything is read again. "
+        "The capacity function also receives inf and 0 SINRs. ")
 ASSUMPTIONS = ["relative tolerance 256 eps n (1 + SINR): the library forms the "
                "denominator by subtracting the own-stream covariance",
                "K >= 2 with generic precoders, so denominators are positive"]
@@ -535,13 +536,22 @@ def case_capacity_fn(ctx, rng, idx):
     n = int(rng.choice([1, 2, 5, 20, 100, 400]))
     hi = float(rng.choice([1, 6, 15, 30]))
     sinr = 10.0 ** rng.uniform(-3, hi, size=n)
+    if idx % 7 == 3:
+        # streams without any interference or noise (isolated cells, zero-forced
+        # streams with no noise configured): SINR = inf, and so is their capacity
+        sinr[int(rng.integers(0, n))] = np.inf
+    if idx % 7 == 5:
+        sinr[int(rng.integers(0, n))] = 0.0      # a blocked stream contributes nothing
     form = idx % 3
     arg = sinr if form == 0 else (sinr.reshape(-1, 1) if form == 1 else
                                   (float(sinr[0]) if n == 1 else sinr))
     want = float(np.sum(np.log2(1 + np.asarray(arg, dtype=float))))
     okc, got = ctx.call("sum-capacity", MISC.calc_shannon_sum_capacity, arg,
                         detail={"n": n, "max_exp": hi})
-    if okc:
+    if okc and not np.isfinite(want):
+        ctx.ev("sum-capacity", float(got) == want, cls="calc_shannon_sum_capacity:infinite-sinr",
+               detail={"n": n, "got": got, "want": want})
+    elif okc:
         ctx.within("sum-capacity", abs(float(got) - want), 1e-11 * (1 + abs(want)),
                    "calc_shannon_sum_capacity",
                    {"n": n, "sinr_head": sinr[:4], "got": got, "want": want})
